@@ -88,7 +88,16 @@ def _comp_filter(f: Func) -> Optional[Tuple[str, str, str]]:
     for n in walk_own(f.node):
         if isinstance(n, ast.ListComp) and len(n.generators) == 1:
             g = n.generators[0]
-            return src(g.iter), " and ".join(src(i) for i in g.ifs), src(n.elt)
+            elt = n.elt
+            # getattr(f, "name") (a helper parametrised by the attribute, inlined) reads as f.name
+            if isinstance(elt, ast.Call) and src(elt.func) == "getattr" and len(elt.args) == 2 and isinstance(elt.args[1], ast.Constant) \
+                    and isinstance(elt.args[1].value, str):
+                elt_s = f"{src(elt.args[0])}.{elt.args[1].value}"
+            else:
+                elt_s = src(elt)
+            import re as _re
+            norm = lambda t: _re.sub(r"__\w+?\d+\b", "", t)         # locals renamed apart by the inliner
+            return norm(src(g.iter)), norm(" and ".join(src(i) for i in g.ifs)), norm(elt_s)
     return None
 
 
